@@ -106,7 +106,7 @@ def main():
         for c in checks:
             fh.write(f"import SCModel.Props.{c['property_id']}\n")
         fh.write("import SCModel.Props.Tie\n")
-        for extra in ("Forms", "C19b", "C20b", "C17b", "C08b", "C09b", "C18b", "C20c", "C02b", "C04b", "C10b", "C07b", "C12b", "C14b", "C16c", "C19c", "C01b", "C03b", "C11b", "C18c", "C15b", "C08c", "C09c", "C20d", "C06b", "C14c"):
+        for extra in ("Forms", "C19b", "C20b", "C17b", "C08b", "C09b", "C18b", "C20c", "C02b", "C04b", "C10b", "C07b", "C12b", "C14b", "C16c", "C19c", "C01b", "C03b", "C11b", "C18c", "C15b", "C08c", "C09c", "C20d", "C06b", "C14c", "C14d"):
             if os.path.exists(os.path.join(ROOT, "lean", "SCModel", "Props", extra + ".lean")):
                 fh.write(f"import SCModel.Props.{extra}\n")
     print("checks:", [c["property_id"] for c in checks], "not_applicable:", [n["property_id"] for n in na])
